@@ -70,7 +70,7 @@ CHEAP = [_w(t) for t in [
     'SELECT a FROM t WHERE b = 1 FOR UPDATE', 'OPEN c FOR SELECT a FROM t', 'OPEN c', 'FETCH c INTO v', 'CLOSE c', 'DECLARE c CURSOR FOR SELECT a FROM t',
     'DECLARE CONTINUE HANDLER FOR NOT FOUND SET v = 1', 'DECLARE w int',
     'DROP TABLE IF EXISTS t3', 'CREATE TABLE IF NOT EXISTS t3 ( a int )', 'DROP VIEW IF EXISTS v',
-    'INSERT INTO t VALUES ( 1 ) ON CONFLICT ( a ) DO UPDATE SET b = 2', 'INSERT INTO t VALUES ( 1 , 2 ) ON CONFLICT DO NOTHING', 'DO SLEEP ( 1 )',
+    'INSERT INTO t VALUES ( 1 ) ON conflict ( a ) DO UPDATE SET b = 2', 'INSERT INTO t VALUES ( 1 , 2 ) ON CONFLICT DO NOTHING', 'DO sleep ( 1 )',
 ]]
 
 # declarations of a DECLARE section besides `name type`: cursors carry the keyword FOR without being loops
@@ -89,19 +89,22 @@ def simple():
     assign = st.tuples(G.plain_name, G.expr(1)).map(lambda t: seq([t[0]], L('assign', ':='), t[1]))
     ret = G.expr(0).map(lambda e: seq(kw('RETURN'), e))
     cheap = st.sampled_from(CHEAP).map(lambda x: [list(l) for l in x])
-    return st.one_of(cheap, cheap, cheap, cheap, cheap, cheap, G.select(0), G.update(), G.delete(), assign, ret, _case_select(False), G.create_table())
+    return G.weighted((9, cheap), (1, G.select(0)), (1, G.update()), (1, G.delete()), (1, assign), (1, ret), (1, _case_select(False)), (1, G.create_table()))
 
 
 @functools.lru_cache(maxsize=None)
 def stmts(depth, exclude):
     # one block in eight starts with a nested DDL statement (CREATE [OR REPLACE] ... right after BEGIN / THEN / LOOP / DO)
     ddl = st.sampled_from([c for c in CHEAP if c[0][1].startswith(('CREATE', 'EXPLAIN', 'DROP'))]).map(lambda x: seq([list(l) for l in x], semi()))
-    return st.tuples(st.integers(0, 7), ddl, st.lists(stmt(depth, exclude), min_size=1, max_size=3)).map(
-        lambda t: (t[1] if t[0] == 0 else []) + [l for x in t[2] for l in x])
+    # ... and one in three (depth permitting) with a block construct, so that every construct directly follows every
+    # block opener (ELSE IF .., THEN BEGIN .., LOOP CASE ..) often enough
+    first = st.one_of(st.none(), st.none(), construct(depth, exclude)) if depth > 0 else st.none()
+    return st.tuples(st.integers(0, 7), ddl, st.lists(stmt(depth, exclude), min_size=1, max_size=3), first).map(
+        lambda t: (t[1] if t[0] == 0 else t[3] if t[3] is not None else []) + [l for x in t[2] for l in x])
 
 
 @functools.lru_cache(maxsize=None)
-def stmt(depth, exclude):
+def stmt(depth, exclude, only_constructs=False):
     """one statement of a block body including its terminating ';'"""
     simple_s = simple().map(lambda s: seq(s, semi()))
     if depth <= 0:
@@ -131,7 +134,15 @@ def stmt(depth, exclude):
     # rotate them per depth so that every construct is the favoured one somewhere
     constructs = alts[3:]
     k = depth % len(constructs)
-    return st.one_of(*(constructs[k:] + constructs[:k] + alts[:3]))
+    if only_constructs:
+        return st.one_of(*(constructs[k:] + constructs[:k]))
+    # half block constructs (each equally likely), half simple statements
+    return G.weighted((1, st.one_of(*(constructs[k:] + constructs[:k]))), (1, simple_s))
+
+
+def construct(depth, exclude):
+    """one block construct (nested block, IF, WHILE, LOOP, FOR, CASE ...) including its terminating ';'"""
+    return stmt(depth, exclude, True)
 
 
 @functools.lru_cache(maxsize=None)
